@@ -183,7 +183,7 @@ func (c02) Eval(c *Chooser, env *Env) *Outcome {
 		w.Opts.Format = "{{range $ := .}}{{$.Filepath}}:{{$.Line}}:{{$.Column}}: {{$.Message}} [{{$.Kind}}]\n{{end}}"
 	}
 	o.World = w
-	kind := c.Int("world.variantkind", 5) // 0,1: schedule+map order; 2: + other CPU count; 3: repeated execution; 4: repeated call on one Linter
+	kind := c.Int("world.variantkind", 6) // 0,1: schedule+map order; 2: + other CPU count; 3: repeated execution; 4: repeated call on one Linter; 5: another GOMAXPROCS
 	r0 := RunLint(w, nil, RunOpts{Canonical: true})
 	o.addRun(r0.K)
 	if v := runFailure("C02", r0.K); v != nil {
@@ -205,6 +205,9 @@ func (c02) Eval(c *Chooser, env *Env) *Outcome {
 		ro.Repeat = 2
 		ro.ReuseLinter = true
 		desc += ", second call on the same Linter instance"
+	case 5:
+		w2.GoMaxProcs = []int{1, 2, 4, 16, 64}[c.Int("world.gmp2", 5)]
+		desc += fmt.Sprintf(", GOMAXPROCS=%d", w2.GoMaxProcs)
 	}
 	r1 := RunLint(&w2, c, ro)
 	o.addRun(r1.K)
